@@ -350,3 +350,76 @@ func c09CheckSizes(tag string, d *diskCacheShard) {
 func Harness_C09_history_2ops() { c09History(2, false) }
 func Harness_C09_history_3ops() { c09History(3, false) }
 func Harness_C09_torn_erase_3ops() { c09History(3, true) }
+
+// Two restarts without any crash: 2..3 seconds are put and the cache is closed; the second run re-reads
+// only a prefix of the tail (0..all seconds), erases an arbitrary subset of the seconds it re-read
+// (they were acknowledged) and closes; the third run drains the cache: exactly the seconds never
+// erased come back, in write order, byte for byte - also those the second run had not re-read yet.
+func Harness_C09_two_restarts() {
+	c09Reset()
+	d, err := makeDiscCacheShard(c09Dir, c09Logf)
+	if err != nil {
+		panic("make shard: " + err.Error())
+	}
+	var secs []*c09Sec
+	n := 2 + v.Choice(2)
+	for i := 0; i < n; i++ {
+		data := v.NondetBytes(v.Choice(3))
+		tm := v.NondetU32()
+		id, err := d.PutBucket(tm, append([]byte(nil), data...))
+		v.Assert("C09.two.put_ok", err == nil && id > 0)
+		secs = append(secs, &c09Sec{id: id, time: tm, data: data})
+	}
+	d.Close()
+	d2, err := makeDiscCacheShard(c09Dir, c09Logf)
+	if err != nil {
+		panic("reopen: " + err.Error())
+	}
+	k := v.Choice(n + 1) // seconds re-read by the second run
+	for i := 0; i < k; i++ {
+		tm, id := d2.ReadNextTailSecond()
+		v.Assert("C09.two.second_run_rereads_in_write_order", id != 0 && tm == secs[i].time)
+		if id == 0 {
+			return
+		}
+		if v.NondetBool() {
+			v.Assert("C09.two.erase_ok", d2.EraseBucket(id) == nil)
+			secs[i].erased = true
+		}
+	}
+	d2.Close()
+	d3, err := makeDiscCacheShard(c09Dir, c09Logf)
+	if err != nil {
+		panic("reopen 2: " + err.Error())
+	}
+	var want []*c09Sec
+	for _, s := range secs {
+		if !s.erased {
+			want = append(want, s)
+		}
+	}
+	var scratch []byte
+	got := 0
+	for {
+		tm, id := d3.ReadNextTailSecond()
+		if id == 0 {
+			break
+		}
+		v.Assert("C09.two.no_more_seconds_than_expected", got < len(want))
+		if got >= len(want) {
+			break
+		}
+		v.Assert("C09.two.seconds_in_write_order", tm == want[got].time)
+		b, err := d3.GetBucket(id, tm, &scratch)
+		v.Assert("C09.two.second_readable", err == nil)
+		if err == nil {
+			v.Assert("C09.two.identical_bytes", string(b) == string(want[got].data))
+		}
+		got++
+	}
+	v.Assert("C09.two.every_unerased_second_comes_back", got == len(want))
+	if k < n && k > 0 {
+		v.Reach("C09.two.partial_reread")
+	}
+	v.Reach("C09.two.end")
+}
